@@ -582,6 +582,29 @@ func ruleC17d(c *Ctx) {
 							if n := sc.Call.StaticCallee().Name(); n == "detectWebService" || n == "detectDispatcher" {
 								fromRouter = true
 							}
+							// a container helper that asks the router and returns the service it answers
+							if cal := sc.Call.StaticCallee(); p.inModule(cal) && cal.Blocks != nil && recvTypeName(cal) == "Container" {
+								all, any := true, false
+								for _, r := range returnsOf(cal) {
+									if r.Block().Comment == "recover" || len(r.Results) == 0 {
+										continue
+									}
+									ex, ok := strip(reach1(p, resultAt(r, 0))).(*ssa.Extract)
+									okR := false
+									if ok && ex.Index == 0 {
+										if ic, ok := ex.Tuple.(*ssa.Call); ok && ic.Call.IsInvoke() && ic.Call.Method.Name() == "SelectRoute" {
+											if _, ok := fieldLoadIs(ic.Call.Value, "Container", "router"); ok {
+												okR = true
+											}
+										}
+									}
+									any = any || okR
+									all = all && okR
+								}
+								if any && all {
+									fromRouter = true
+								}
+							}
 						}
 						if ex, ok := src.(*ssa.Extract); ok && ex.Index == 0 {
 							if sc, ok := ex.Tuple.(*ssa.Call); ok && sc.Call.StaticCallee() != nil && sc.Call.StaticCallee().Name() == "detectDispatcher" {
@@ -611,7 +634,18 @@ func ruleC17d(c *Ctx) {
 		// ... or directly, holding the lock of the list at every load (C12.a decides the discipline of other fields)
 		li := p.lockInfo()
 		n, locked := 0, true
-		for _, a := range p.fieldAccesses(cam) {
+		// in the computation itself and in the Container helpers it calls directly
+		scope := []*ssa.Function{cam}
+		eachInstr(cam, func(i ssa.Instruction) {
+			if cc := callCommon(i); cc != nil && cc.StaticCallee() != nil && p.inModule(cc.StaticCallee()) && cc.StaticCallee().Blocks != nil && recvTypeName(cc.StaticCallee()) == "Container" {
+				scope = append(scope, cc.StaticCallee())
+			}
+		})
+		var accs []FieldAccess
+		for _, f := range scope {
+			accs = append(accs, p.fieldAccesses(f)...)
+		}
+		for _, a := range accs {
 			if a.Kind != "load" || a.Owner != "Container" {
 				continue
 			}
@@ -667,6 +701,9 @@ func ruleC17e(c *Ctx) {
 			if cc := callCommon(i); cc != nil {
 				switch calleeName(cc) {
 				case "(*sync.Map).Load", "(*sync.Map).LoadOrStore":
+					if p.pureSyncMap(cc.Args[0]) {
+						return // a memo of pure functions of the key: never stale
+					}
 					c.bad(p.fname(fn), "allowed methods read from a cache", p.ipos(i), "the answer may be older than the route tables (Route/RemoveRoute do not go through the container)")
 				}
 			}
